@@ -125,6 +125,9 @@ def run(ctx):
                 bad("format 4 field round trip (sequence)", {"fn": "field_4", "args": [pin, "call %d" % i]}, pin, repr(f4))
                 break
     bump("iso3_sequence")
+    from harness.props.pinblock_common import threaded_fixed_pairs
+    dist["format_0_3_calls_in_tight_threaded_loops"] = threaded_fixed_pairs(ctx.rng, viol, iters=ctx.n(12000, 50000))
+    evals += dist["format_0_3_calls_in_tight_threaded_loops"]
     from harness.props.pinblock_common import threaded_encoders
     dist["encoder_calls_under_threads"] = threaded_encoders(ctx.rng, viol)
     evals += dist["encoder_calls_under_threads"]
